@@ -37,6 +37,10 @@ func (c *polCtx) draw(depth int, top bool) types.SpendPolicy {
 	case 0:
 		return types.PolicyAbove(uint64(int64(c.height) + int64(t.Range(-2, 2))))
 	case 1:
+		if t.Chance(1, 6) {
+			// lock times long past: before the epoch, the zero time, the first second of year 1
+			return types.PolicyAfter(pick(t, time.Unix(-int64(t.Range(1, 1<<30)), 0), time.Time{}, time.Unix(0, 0), time.Unix(-62135596800, 0)))
+		}
 		return types.PolicyAfter(c.median.Truncate(time.Second).Add(time.Duration(t.Range(-2, 2)) * time.Second))
 	case 2:
 		if t.Chance(1, 5) {
@@ -74,7 +78,7 @@ func (c *polCtx) draw(depth int, top bool) types.SpendPolicy {
 			case 1:
 				uc.PublicKeys = append(uc.PublicKeys, c.alien[t.Choose(len(c.alien))].PublicKey().UnlockKey())
 			case 2:
-				uc.PublicKeys = append(uc.PublicKeys, types.UnlockKey{Algorithm: types.NewSpecifier(pick(t, "odd", "a:b c", "x,y", "p(q)", "[z]", "q\"r")), Key: []byte{1, 2, 3}})
+				uc.PublicKeys = append(uc.PublicKeys, types.UnlockKey{Algorithm: types.NewSpecifier(pick(t, "odd", "a:b c", "x,y", "p(q)", "[z]", "q\"r", "\"\\\n\t\x01\x02\"\\\"\\", "a]b^c_d`e", "\xff\xfe\"\n\\\x00z")), Key: []byte{1, 2, 3}})
 			default:
 				uc.PublicKeys = append(uc.PublicKeys, types.UnlockKey{Algorithm: types.SpecifierEntropy, Key: make([]byte, 32)})
 			}
